@@ -33,6 +33,8 @@ POOL = {
 }
 POINT_POOL = {
     'pL': ('Langmuir', {'K': 2.0, 'n_m': 3.5}), 'pT': ('Toth', {'n_m': 4.5, 'K': 1.0, 't': 0.8}), 'pL2': ('Langmuir', {'K': 0.5, 'n_m': 5.0}),
+    # the same kind of data held in a table with supplementary columns that are partly empty (the points themselves are complete)
+    'pTx': ('Toth', {'n_m': 3.0, 'K': 1.8, 't': 0.6}),
 }
 PGRID = [0.05, 0.5, 2.0]
 
@@ -58,6 +60,12 @@ def iso(key, scale):
         m.pressure_range = (1e-3, 400.0)
         m.loading_range = (0.0, 10.0)
         _ISO[k] = pygaps.ModelIsotherm(model=m, material='c13', adsorbate='CO2', temperature=T, **U)
+    elif key.endswith('x'):
+        import pandas
+        p, n = point_data(key, scale)
+        df = pandas.DataFrame({'pressure': p, 'loading': n, 'enthalpy': [float('nan') if i % 3 == 1 else 30.0 - 0.1 * i for i in range(len(p))],
+                               'remark': [None if i % 5 == 2 else 'ok' for i in range(len(p))]})
+        _ISO[k] = pygaps.PointIsotherm(isotherm_data=df, pressure_key='pressure', loading_key='loading', material='c13', adsorbate='CO2', temperature=T, **U)
     else:
         p, n = point_data(key, scale)
         _ISO[k] = pygaps.PointIsotherm(pressure=p, loading=n, material='c13', adsorbate='CO2', temperature=T, **U)
@@ -308,6 +316,27 @@ def check_inputs(ctx):
             nt += 1
             if not numpy.array_equal(g, g0):
                 report('argument-mutated', f'iast_point changed the adsorbed_mole_fraction_guess array from {g0} to {g}', g0, g, {'argument': 'adsorbed_mole_fraction_guess'})
+    # selectivity-vs-pressure helper: every entry belongs to the pressure at the same position, whatever the order of the list
+    for keys in (('L1', 'L2'), ('L1', 'T'), ('pL', 'pT'), ('DS', 'L3')):
+        isos = [iso(k, scale) for k in keys]
+        yv = [0.3, 0.7]
+        for oname, plist in (('ascending', [0.5, 1.0, 2.0, 5.0, 10.0]), ('descending', [10.0, 5.0, 2.0, 1.0, 0.5]), ('shuffled', [2.0, 10.0, 0.5, 5.0, 1.0]), ('with a repeat', [1.0, 5.0, 1.0])):
+            o = core.call(pgi.iast_binary_svp, isos, yv, list(plist), warningoff=True, timeout=120)
+            ev += 1
+            if not o.ok:
+                nr += 1
+                continue
+            nt += 1
+            want = []
+            for pt_ in plist:
+                r = core.call(pgi.iast_point, isos, [yv[0] * pt_, yv[1] * pt_], warningoff=True, timeout=60)
+                want.append((r.value[0] / yv[0]) / (r.value[1] / yv[1]) if r.ok else float('nan'))
+            got = numpy.asarray(o.value['selectivity'], dtype=float)
+            pr_ = numpy.asarray(o.value['pressure'], dtype=float)
+            okm = numpy.isfinite(want)
+            if got.shape != (len(plist),) or not numpy.allclose(pr_, plist) or core.relerr(got[okm], numpy.asarray(want)[okm]) > 1e-7:
+                report('svp-helper-order', f'iast_binary_svp({list(keys)}, y={yv}, pressures {plist} ({oname})): pressures {list(pr_)} selectivities {list(got)} but the point '
+                       f'calculations at those pressures give {want}', want, list(got), {'order': oname})
     # reverse IAST: requested adsorbed composition incl. trace components, default and user guess
     for keys in (('L1', 'L2'), ('L1', 'T'), ('L2', 'DS'), ('pL', 'pT'), ('L1', 'L2', 'T')):
         isos = [iso(k, scale) for k in keys]
